@@ -36,8 +36,13 @@ int main(VF_MAIN_ARGS)
     if (getenv("VF_SEARCH")) {
         /* the libc contract over-approximates glibc: when the solver's (d, v15) pair is not what glibc produces for that d, look for a
          * realisable witness among nearby doubles of the same sign and magnitude (a violation is only ever reported if one is found) */
-        double d0 = IN.d; long k; int wf = IN.wf & 1;
-        for (k = 1; k < 200000; k++) {
+        double d0 = IN.d; long k; int wf = IN.wf & 1; unsigned o;
+        for (k = 0; k < 6000; k++) {
+            IN.d = d0 * (1.0 + (double)k * 7.3e-7);
+            if (wf) IN.vi = IN.d >= INT_MAX ? INT_MAX : IN.d <= (double)INT_MIN ? INT_MIN : (int)IN.d;
+            for (o = 0; o <= N; o++) { IN.off = o; body(); }        /* every distance to the end of the caller's buffer */
+        }
+        for (k = 6000; k < 200000; k++) {
             IN.d = d0 * (1.0 + (double)k * 7.3e-7);
             if (wf) IN.vi = IN.d >= INT_MAX ? INT_MAX : IN.d <= (double)INT_MIN ? INT_MIN : (int)IN.d;
             body();
